@@ -18,6 +18,9 @@ from vlib import VERIF
 MC = [("MC_v3q", 300, "both"), ("MC_v3r", 600, "both"), ("MC_v3t", 2400, "thorough")]
 SIMS = [("Sim_v3a", 120, 1200, 60), ("Sim_v3b", 80, 800, 60), ("Sim_v3c", 60, 600, 60)]
 EPILOGUE = [{"k": "drain"}, {"k": "heal"}, {"k": "drain"}]
+# live mode: the reconciles of the schedule run only if the REAL watchers have woken their object; at the end the real work
+# sets are served until they stay empty (wdrain) - that state must be terminal - and only then is every object served (drain)
+LIVE_EPILOGUE = [{"k": "wdrain"}, {"k": "heal"}, {"k": "wdrain"}, {"k": "drain"}]
 
 
 def log(*a):
@@ -31,9 +34,39 @@ def norm_step(st):
     return st
 
 
-def normalise(steps, name, sd, pol=""):
-    ep = [dict(s, pol=pol) if s["k"] == "drain" and pol else dict(s) for s in EPILOGUE]
-    return {"name": name, "seed": sd * 100003 + zlib.crc32(name.encode()) % 100000, "steps": [norm_step(s) for s in steps] + ep}
+def normalise(steps, name, sd, pol="", live=False):
+    ep = [dict(s, pol=pol) if s["k"] in ("drain", "wdrain") and pol else dict(s) for s in (LIVE_EPILOGUE if live else EPILOGUE)]
+    sc = {"name": name, "seed": sd * 100003 + zlib.crc32(name.encode()) % 100000, "steps": [norm_step(s) for s in steps] + ep}
+    if live:
+        sc["live"] = True
+    return sc
+
+
+def live_variants(scenarios, origin, tier, sd):
+    """The same schedules with the real watchers in charge: a pick is executed only if its object was woken."""
+    rs = random.Random(sd + 17)
+    bases = [s for s in scenarios if origin[s["name"]] in ("sim", "regress", "must_replay") and not s.get("live")]
+    regress = [s for s in bases if origin[s["name"]] == "regress"]
+    rest = [s for s in bases if origin[s["name"]] != "regress"]
+    rs.shuffle(rest)
+    out = []
+    for i, s in enumerate(regress + rest[: (70 if tier == "quick" else 900)]):
+        body = [st for st in s["steps"] if st["k"] not in ("drain", "heal", "wdrain")]
+        # client requests and environment events keep their place; in every second variant the schedule's own reconciles
+        # are dropped altogether and the controllers run on their wake-ups between the requests
+        if i % 2 == 1:
+            nb = []
+            for st in body:
+                if st["k"] in ("rtx", "rcfg", "rmast") and not st.get("cut") and not st.get("mid"):
+                    continue
+                nb.append(st)
+                if st["k"] in ("append", "rollback") and rs.random() < 0.5:
+                    nb.append({"k": "wdrain", "pol": rs.choice(["", "newest"])})
+            body = nb
+        v = normalise(body, s["name"] + "-live", sd, rs.choice(["", "newest"]), live=True)
+        out.append(v)
+        origin[v["name"]] = "live"
+    return out
 
 
 def run_mc(specdir, module, timeout):
@@ -116,6 +149,8 @@ def variants(scenarios, origin, tracedir, tier, sd):
     bases = [s for s in scenarios if origin[s["name"]] in ("regress", "sim", "must_replay")]
     rs.shuffle(bases)
     for s in bases:
+        if s.get("live"):
+            continue
         p = os.path.join(tracedir, s["name"] + ".ndjson")
         if not os.path.exists(p):
             continue
@@ -246,7 +281,7 @@ def check(prop, tier, replay_file=None):
         scenarios, origin, mc_results, sim_generated = [], {}, [], 0
         if replay_file:
             b = json.load(open(replay_file))
-            s = b["scenario"] if "scenario" in b else normalise(b["steps"], "replay", sd)
+            s = b["scenario"] if "scenario" in b else normalise(b["steps"], "replay", sd, live=bool(b.get("live")))
             scenarios.append(s)
             origin[s["name"]] = "replay"
         else:
@@ -271,13 +306,14 @@ def check(prop, tier, replay_file=None):
                     origin[s["name"]] = "sim"
                 log("sim %s: %d behaviours, %d states, %.1fs" % (module, len(bs), gen, wall))
             for name, b in load_regress():
-                s = normalise(b["steps"], "regress-" + name, sd)
+                s = normalise(b["steps"], "regress-" + name, sd, live=bool(b.get("live")))
                 scenarios.append(s)
                 origin[s["name"]] = "regress"
         tracedir = sc.mkdir("traces")
         infra = replay(bins, scenarios, tracedir)
         if not replay_file:
             vs = variants(scenarios, origin, tracedir, tier, sd)
+            vs += live_variants(scenarios, origin, tier, sd)
             infra += replay(bins, vs, tracedir)
             scenarios += vs
         if infra:
